@@ -8,6 +8,8 @@ package trie
 //        -> clause C15/history       input {"ops":[{"op":"add"|"del","b":[bytes]}, ...]}
 //   func (*Trie).ForEach (early stop)
 //        -> clause C18/foreach-stop  input {"members":[[bytes], ...], "stop": n}
+//   func (*Trie).ForEach (deep tries: traversal stack of more than 8/16/32 entries)
+//        -> clause C18/foreach-deep  input {"members":[[bytes], ...], "stop": "never" | n}
 //
 // Oracle of C15 (written from the statement, independent of the code): a set M
 // of byte strings ("maximal sequences").
@@ -40,7 +42,8 @@ var vtClauses = []vrClause{
 			"thorough: additionally every history of <= 3 ops over the 14 strings of length 1..3 on {a,b} (28 choices per step) and every history of exactly 5 ops over the 6 strings of length 1..2 whose first operand begins with 'a' (124416 histories; the other half is their a<->b mirror image); " +
 			"then random histories of 200 ops on a 4-letter alphabet with strings of length 1..5 (cheaper observation after each step: " +
 			"Delete result, ForEach multiset, Has on the prefixes/extensions of the operand and a few pseudo-random words, direct JSON rebuild at every step, " +
-			"plus two tries that are JSON-round-tripped after every op) until the time budget ends",
+			"plus two tries that are JSON-round-tripped after every op), alternating with random 'deep' histories of 60 ops in which half of the fresh operands " +
+			"have length 8..40 and extensions grow up to 40 bytes (Delete/Has/ForEach/JSON on deep paths), until the time budget ends",
 		Rule: "trivial = empty history or a history containing Delete(empty) (outside the statement)",
 		Gen:  vtGenHistory,
 		Run:  vtRunHistory,
@@ -53,6 +56,17 @@ var vtClauses = []vrClause{
 		Rule: "trivial = no member is reported by the uninterrupted run (empty trie)",
 		Gen:  vtGenStop,
 		Run:  vtRunStop,
+	},
+	{
+		Prop: "C18", Name: "foreach-deep",
+		Bound: "tries with LONG members (traversal stack deeper than 8, 16 and 32 entries), ForEach compared with the reference set model: " +
+			"every single chain of length 1..40 (stop never, 0); every pair of members of length L = 2..40 sharing a prefix of length L-1 (stop never, 0, 1); " +
+			"combs: a spine of length 40 with a side branch leaving at every depth of a set of depths around 7..9, 15..17, 31..33 (stop never and every position); " +
+			"then random sets of 1..12 members of length 1..40 on a 4-letter alphabet, a third of them branching late off an earlier member " +
+			"(stop never, 0, 1, N/2, N-1), until the time budget ends",
+		Rule: "trivial = no member (empty trie)",
+		Gen:  vtGenDeep,
+		Run:  vtRunDeep,
 	},
 }
 
@@ -558,31 +572,49 @@ func vtGenHistory(g *vrGen) {
 	}
 	g.Exhaustive(done)
 	// Random long histories.
+	// Every second history is "deep": half of the fresh operands have length
+	// 8..40 and extensions may grow up to 40 bytes, so that Delete, Has, ForEach
+	// and the JSON round trip work on deep paths (shorter histories: the
+	// observation cost grows with the depth).
 	alpha := []byte("acgt")
-	for !g.Expired() {
+	for round := 0; !g.Expired(); round++ {
+		deep := round%2 == 1
+		nops, maxLen := 200, 5
+		if deep {
+			nops, maxLen = 60, 40
+		}
+		fresh := func() []byte {
+			if deep && g.Rand.Intn(2) == 0 {
+				return vrRandWord(g.Rand, alpha, 8+g.Rand.Intn(33))
+			}
+			return vrRandWord(g.Rand, alpha, 1+g.Rand.Intn(5))
+		}
 		m := &vtModel{}
-		ops := make([]vtOp, 0, 200)
+		ops := make([]vtOp, 0, nops)
 		var pool [][]byte // operands used so far
-		for len(ops) < 200 {
+		for len(ops) < nops {
 			var b []byte
 			switch r := g.Rand.Intn(10); {
 			case r < 4 || len(pool) == 0:
-				b = vrRandWord(g.Rand, alpha, 1+g.Rand.Intn(5))
+				b = fresh()
 			case r < 7: // a prefix of an earlier operand
 				w := pool[g.Rand.Intn(len(pool))]
 				b = append([]byte(nil), w[:1+g.Rand.Intn(len(w))]...)
 			case r < 9: // an extension of an earlier operand
 				w := pool[g.Rand.Intn(len(pool))]
 				b = append([]byte(nil), w...)
-				for len(b) < 5 && g.Rand.Intn(2) == 0 {
+				for len(b) < maxLen && g.Rand.Intn(2) == 0 {
 					b = append(b, alpha[g.Rand.Intn(len(alpha))])
+				}
+				if deep && len(b) < maxLen && g.Rand.Intn(3) == 0 { // a long extension
+					b = append(b, vrRandWord(g.Rand, alpha, 1+g.Rand.Intn(maxLen-len(b)))...)
 				}
 			default: // a current member, or a prefix of one
 				if l := m.sorted(); len(l) > 0 {
 					w := l[g.Rand.Intn(len(l))]
 					b = []byte(w[:1+g.Rand.Intn(len(w))])
 				} else {
-					b = vrRandWord(g.Rand, alpha, 1+g.Rand.Intn(5))
+					b = fresh()
 				}
 			}
 			// Deletes are rarer than adds so that the set grows.
@@ -715,5 +747,205 @@ func vtGenStop(g *vrGen) {
 			ms[i] = vrRandWord(g.Rand, alpha, 1+g.Rand.Intn(6))
 		}
 		vtStopCases(g, ms)
+	}
+}
+
+// ---------------------------------------------------------------------------
+// C18/foreach-deep
+
+// vtDecodeStop decodes "stop": the string "never", or the number n of calls
+// answered true (f returns false on call n+1).
+func vtDecodeStop(v any) (stop int, never bool) {
+	if s, ok := v.(string); ok && s == "never" {
+		return 0, true
+	}
+	stop = vrInt(v)
+	if stop < 0 {
+		panic("harness: negative stop")
+	}
+	return stop, false
+}
+
+func vtRunDeep(in map[string]any) vrResult {
+	var members [][]byte
+	for _, e := range vrList(in["members"]) {
+		members = append(members, vrBytes(e))
+	}
+	stop, never := vtDecodeStop(in["stop"])
+	// Expected result, from the reference set model.
+	m := &vtModel{}
+	bound := 0
+	for _, b := range members {
+		m.add(string(b))
+		bound += len(b) + 1
+	}
+	want := m.sorted()
+	wantSet := map[string]bool{}
+	for _, x := range want {
+		wantSet[x] = true
+	}
+	res := vrResult{OK: true, Trivial: len(want) == 0}
+	where := "building the trie"
+	p := vrCatch(func() {
+		t := New()
+		for _, b := range members {
+			t.Add(append([]byte(nil), b...))
+		}
+		if never {
+			where = "uninterrupted ForEach"
+			got, overrun := vtCollect(t, bound+16)
+			sort.Strings(got)
+			same := !overrun && len(got) == len(want)
+			for i := 0; same && i < len(got); i++ {
+				same = got[i] == want[i]
+			}
+			if !same {
+				res = vrResult{OK: false, Observed: fmt.Sprintf("ForEach reported %q (sorted; more than %d calls: %v)", got, bound+16, overrun),
+					Expected: fmt.Sprintf("ForEach reports exactly %q, each once", want), Signature: "generic"}
+			}
+			return
+		}
+		wantCalls := stop + 1
+		if wantCalls > len(want) {
+			wantCalls = len(want)
+		}
+		where = fmt.Sprintf("ForEach with f returning false on call %d", stop+1)
+		calls := 0
+		var seen []string
+		t.ForEach(func(b []byte) bool {
+			calls++
+			if calls > bound+16 {
+				panic("harness: runaway ForEach")
+			}
+			seen = append(seen, string(b)) // copy: the slice may be overwritten
+			return calls <= stop
+		})
+		exp := fmt.Sprintf("%d call(s), distinct members of %q", wantCalls, want)
+		if calls != wantCalls {
+			res = vrResult{OK: false, Observed: fmt.Sprintf("%d calls (items %q) with f returning false on call %d", calls, seen, stop+1),
+				Expected: exp, Signature: "generic"}
+			return
+		}
+		dup := map[string]bool{}
+		for _, x := range seen {
+			if !wantSet[x] || dup[x] {
+				res = vrResult{OK: false, Observed: fmt.Sprintf("items seen %q", seen), Expected: exp, Signature: "generic"}
+				return
+			}
+			dup[x] = true
+		}
+	})
+	if p != nil {
+		return vrResult{OK: false, Observed: fmt.Sprintf("%s: panic: %v", where, p), Expected: "no panic", Signature: "generic"}
+	}
+	return res
+}
+
+// vtDeepCases runs members with stop = never and the given stop positions
+// (all positions 0..N-1 if stops is nil; positions >= N are skipped except 0).
+func vtDeepCases(g *vrGen, members [][]byte, stops []int) {
+	m := &vtModel{}
+	enc := make([]any, len(members))
+	for i, b := range members {
+		m.add(string(b))
+		enc[i] = vrB(b)
+	}
+	g.Case(map[string]any{"members": enc, "stop": "never"})
+	n := m.size()
+	if stops == nil {
+		for s := 0; s < n; s++ {
+			stops = append(stops, s)
+		}
+	}
+	done := map[int]bool{}
+	for _, s := range stops {
+		if s < 0 || (s >= n && s != 0) || done[s] {
+			continue
+		}
+		done[s] = true
+		g.Case(map[string]any{"members": enc, "stop": s})
+	}
+}
+
+func vtGenDeep(g *vrGen) {
+	alpha := []byte("acgt")
+	// chain(n, salt): a fixed word of length n that is not periodic with a short period.
+	chain := func(n, salt int) []byte {
+		b := make([]byte, n)
+		for i := range b {
+			b[i] = alpha[(i*i+i/3+salt)%4]
+		}
+		return b
+	}
+	// Single chains of every length.
+	for l := 1; l <= 40; l++ {
+		vtDeepCases(g, [][]byte{chain(l, 0)}, []int{0})
+	}
+	// Two members of length l sharing a prefix of length l-1.
+	for l := 2; l <= 40; l++ {
+		a := chain(l, 1)
+		b := append([]byte(nil), a...)
+		if a[l-1] == 'a' {
+			b[l-1] = 'c'
+		} else {
+			b[l-1] = 'a'
+		}
+		vtDeepCases(g, [][]byte{a, b}, []int{0, 1})
+		vtDeepCases(g, [][]byte{b, a}, []int{0, 1})
+	}
+	// Combs: a spine of length 40 with side branches leaving late.
+	spine := chain(40, 2)
+	other := func(c byte, k int) byte { // a letter different from c
+		for i := 0; ; i++ {
+			if x := alpha[(k+i)%4]; x != c {
+				return x
+			}
+		}
+	}
+	branch := func(depth, tail, k int) []byte { // shares spine[:depth], then differs
+		b := append([]byte(nil), spine[:depth]...)
+		b = append(b, other(spine[depth], k))
+		return append(b, chain(tail, k)...)
+	}
+	for _, depths := range [][]int{{7, 8, 9}, {15, 16, 17}, {31, 32, 33}, {7, 8, 9, 15, 16, 17, 31, 32, 33}, {8, 16, 32}, {39}, {38, 39}} {
+		for _, tail := range []int{0, 1, 6} {
+			ms := [][]byte{spine}
+			for k, d := range depths {
+				ms = append(ms, branch(d, tail, k))
+				if k%2 == 1 { // a second branch at the same depth
+					ms = append(ms, branch(d, tail+1, k+1))
+				}
+			}
+			vtDeepCases(g, ms, nil)
+			// the same members, spine last
+			rev := append(append([][]byte(nil), ms[1:]...), spine)
+			vtDeepCases(g, rev, nil)
+		}
+	}
+	g.Exhaustive(true)
+	// Random.
+	for !g.Expired() {
+		n := 1 + g.Rand.Intn(12)
+		ms := make([][]byte, 0, n)
+		for len(ms) < n {
+			if len(ms) > 0 && g.Rand.Intn(3) == 0 { // branch late off an earlier member
+				w := ms[g.Rand.Intn(len(ms))]
+				cut := len(w) - 1 - g.Rand.Intn(4)
+				if cut < 0 {
+					cut = 0
+				}
+				b := append([]byte(nil), w[:cut]...)
+				b = append(b, vrRandWord(g.Rand, alpha, 1+g.Rand.Intn(40-cut))...)
+				ms = append(ms, b)
+				continue
+			}
+			ms = append(ms, vrRandWord(g.Rand, alpha, 1+g.Rand.Intn(40)))
+		}
+		mm := &vtModel{}
+		for _, b := range ms {
+			mm.add(string(b))
+		}
+		k := mm.size() // N, the number of maximal members
+		vtDeepCases(g, ms, []int{0, 1, k / 2, k - 1})
 	}
 }
